@@ -91,6 +91,8 @@ def run(ids, results, res_path, props, run_all):
                 why = [l for l in out.split("\n") if l.startswith(("failing input", "obligation no longer"))][:3]
                 caught[p] = {"exit": rc, "violation": bool(viol), "no_failing_input_found": any("no-failing-input-found" in v for v in viol),
                              "why": [w[:300] for w in why], "wall_s": round(time.time() - t0, 1)}
+                if not viol:
+                    caught[p]["output_tail"] = out[-1500:]
             rec["checks"] = caught
             rec["caught_by_own_check"] = caught[prop]["exit"] == 1 and caught[prop]["violation"]
             rec["caught_by"] = sorted(p for p, c in caught.items() if c["exit"] == 1 and c["violation"])
